@@ -21,7 +21,8 @@ MANIFEST = {
             "the re-key step maps the sponge state S to (P12 . zero-the-rate)^4 (S) for every state in each state "
             "layout (interpretation over bit expressions), whole-buffer absorption of system seed and fed data "
             "(followed through helper functions of the unit), absence of other data sources in the PRNG call "
-            "tree, the 16384-byte reseed guard dominating the squeeze, the produced-bytes counter reset only "
+            "tree, the 16384-byte reseed guard dominating the squeeze of fetch and of every other public function that "
+            "hands out generator output, the produced-bytes counter reset only "
             "where fresh system entropy is drawn, and the documented status values; diffusion of entropy into all "
             "later output and one-wayness are cryptographic properties of the permutation and are not decided",
     "note": "trusted: clang lowering, irdump (incl. LLVM scalar evolution for the loop trip count), the "
